@@ -26,7 +26,7 @@ ASSUMPTIONS = [
     'titles and paths ASCII',
     'wall clock frozen by monkeypatching datetime in io.sqw._models/_build',
 ]
-REQUIRED_CLASSES = ['file_decoded', 'perm_identical', 'byteorder_big', 'byteorder_little', 'sink_path', 'sink_bytes', 'sink_path_preexisting_longer_file', 'dnd_singleton_axis', 'multi_chunk_write']
+REQUIRED_CLASSES = ['file_decoded', 'perm_identical', 'byteorder_big', 'byteorder_little', 'sink_path', 'sink_bytes', 'sink_path_preexisting_longer_file', 'dnd_singleton_axis', 'chunk_and_pixels_above_2_16', 'multi_chunk_write']
 BOUND = {
     'quick': 'all 326 programs x 3 byte orders x 2 sinks x 2 chunks at 7 pixels; (n, chunk) grid up to 20000 pixels',
     'thorough': 'same plus 100000 pixels and chunk 100000, runs up to 20, strings up to 70000',
@@ -61,6 +61,10 @@ def cases(tier):
                     if tier == 'quick' and n >= 8191 and ch < 100 and not (bo == 'little' and sink == 'bytes'):
                         continue
                     out.append({'kind': 'grid', 'n_pixels': n, 'chunk': ch, 'byteorder': bo, 'sink': sink, 'runs': 1})
+    # sizes around 2^16 pixels and write chunks larger than that (internal limits on what is converted/written at once)
+    for n, ch in ((65536, 65536), (65537, 65536), (65537, 65537), (70000, 70000), (70000, 100000), (66000, 33000)):
+        for bo, sink in (('little', 'bytes'), ('big', 'path')):
+            out.append({'kind': 'grid', 'n_pixels': n, 'chunk': ch, 'byteorder': bo, 'sink': sink, 'runs': 1})
     # histogram shapes incl. leading / trailing / only singleton axes (block size vs written size)
     for nb in ((2, 2, 2, 2), (1, 1, 1, 1), (2, 3, 1, 1), (4, 1, 1, 2), (1, 5, 3, 2), (3, 5, 2, 4), (40, 50, 4, 1)):
         for bo in ('little', 'big'):
@@ -189,6 +193,8 @@ def run_case(case, rec):
             rec.cls('multi_chunk_write')
         if case['chunk'] * 9 < n:
             rec.cls('more_chunks_than_rows')
+        if n > 65536 and case['chunk'] > 65536:
+            rec.cls('chunk_and_pixels_above_2_16')
     elif kind == 'strings':
         title = ('t' * case['title_len'])
         fname = ('p' * max(0, case['path_len'] - 4)) + '.sqw' if case['path_len'] else 'x.sqw'
